@@ -269,6 +269,39 @@ def corpus():
                  "guard": ("atom", v("x"), "==", c(0)),
                  "body": [("if", [(("atom", v("c"), "==", c(1)), [("assign", "x", ("draw", ("bern", c(F(1, 2)))))])], None)]},
                 [{"x": 1}], "guard+collapsed-if"))
+    # --- condition arithmetisation: overlapping disjuncts, nested negation, non-binary types, powers >= |type|
+    fin3 = lambda x: ("assign", x, ("choice", [(c(F(1, 3)), c(0)), (c(F(1, 3)), c(1)), (c(F(1, 3)), c(2))]))
+    bern = lambda x, p: ("assign", x, ("draw", ("bern", c(p))))
+    inc = lambda z, e: ("assign", z, P.det(("add", v(z), e)))
+    eq = lambda x, k: ("atom", v(x), "==", c(k))
+    base_init = [("assign", "a", P.det(c(0))), ("assign", "b", P.det(c(1))), ("assign", "x", P.det(c(0))), ("assign", "y", P.det(c(0)))]
+    out.append(({"types": [], "init": base_init, "guard": ("true",),
+                 "body": [bern("a", F(1, 2)), fin3("b"),
+                          ("if", [(("or", eq("a", 1), eq("b", 2)), [inc("x", ("add", v("x"), c(3)))])], [inc("x", c(1))]),
+                          ("assign", "x", P.det(("mul", c(F(1, 2)), v("x"))))]},
+                [{"x": 2}, {"x": 1, "b": 2}], "or-overlap"))
+    out.append(({"types": [], "init": base_init, "guard": ("true",),
+                 "body": [bern("a", F(1, 3)), fin3("b"),
+                          ("if", [(("not", ("and", eq("a", 0), ("atom", v("b"), "<", c(2)))), [inc("x", v("b"))]),
+                                  (("or", ("atom", v("b"), ">=", c(1)), ("not", eq("a", 1))), [inc("y", c(2))])], [inc("y", v("a"))])]},
+                [{"x": 1, "y": 1}, {"b": 3}, {"y": 2}], "not-and-or-elif"))
+    out.append(({"types": [], "init": base_init, "guard": ("true",),
+                 "body": [fin3("b"), ("assign", "a", P.det(("sub", c(1), v("a")))),
+                          ("if", [(("or", ("and", eq("a", 1), ("atom", v("b"), ">", c(0))), ("or", eq("b", 1), eq("a", 1))), [inc("x", ("mul", v("b"), v("b")))])], None),
+                          inc("y", ("mul", v("a"), v("x")))]},
+                [{"y": 1}, {"x": 1, "b": 2, "a": 1}], "nested-or-and-powers"))
+    # --- comparison of two variables reused after either side is reassigned (alias reuse in ConditionsReducer)
+    cmp = lambda l, op, r: ("atom", v(l), op, v(r))
+    init2 = [("assign", "x", P.det(c(1))), ("assign", "y", P.det(c(0))), ("assign", "a", P.det(c(0))), ("assign", "b", P.det(c(0)))]
+    two = lambda z: ("assign", z, ("choice", [(c(F(1, 2)), c(0)), (c(F(1, 2)), c(2))]))
+    out.append(({"types": [], "init": init2, "guard": ("true",),
+                 "body": [("assign", "x", P.det(c(1))), ("if", [(cmp("x", ">", "y"), [inc("a", c(1))])], None), two("y"),
+                          ("if", [(cmp("x", ">", "y"), [inc("b", c(1))])], None)]},
+                [{"b": 1}, {"a": 1, "b": 1}], "alias-reuse-after-rhs-reassigned"))
+    out.append(({"types": [], "init": init2, "guard": ("true",),
+                 "body": [two("y"), ("if", [(cmp("x", ">", "y"), [inc("a", c(1))])], None), two("x"),
+                          ("if", [(cmp("x", ">", "y"), [inc("b", c(1))]), (cmp("y", ">=", "x"), [inc("b", c(3))])], None)]},
+                [{"b": 1}, {"a": 1, "b": 1}], "alias-reuse-after-lhs-reassigned"))
     # README-like random walk with choice
     out.append(({"types": [], "init": [("assign", "x", P.det(c(0))), ("assign", "s", P.det(c(1)))], "guard": ("true",),
                  "body": [("assign", "s", ("choice", [(c(F(1, 2)), c(1)), (c(F(1, 2)), c(-1))])),
